@@ -98,8 +98,6 @@ def handleAttr : List String → String
 
 abbrev K := List KV
 
-def sumAgg : Agg Int Int := { new := 0, add := fun a v => a + v, merge := fun a b => a + b }
-
 def insertStr (s : String) : List String → List String
   | [] => [s]
   | x :: xs => if s < x then s :: x :: xs else x :: insertStr s xs
